@@ -502,6 +502,15 @@ fn payload_strategy() -> BoxedStrategy<String> {
         2 => any::<String>().prop_map(|s| s.chars().filter(|c| *c != '\0').take(60).collect::<String>()),
         1 => "[a-z\n]{1,20}",
         1 => Just("é日本語 ñ".to_string()),
+        // long payloads: runs of one multi-byte character behind an ASCII pad of every length
+        // (every alignment of character boundaries against byte offsets), and long arbitrary text
+        2 => (0usize..9, prop_oneof![Just('日'), Just('é'), Just('😀'), Just('a'), Just(' ')], 90usize..800).prop_map(|(pad, ch, n)| {
+            let mut s = "x".repeat(pad);
+            s.extend(std::iter::repeat(ch).take(n));
+            s.push('z');
+            s
+        }),
+        1 => proptest::collection::vec(any::<char>().prop_filter("no NUL", |c| *c != '\0'), 150..1500).prop_map(|v| v.into_iter().collect::<String>()),
     ]
     .prop_filter("non-empty after trim_end", |s| !s.trim_end().is_empty())
     .boxed()
